@@ -29,8 +29,8 @@ func init() {
 			"metadata: generated SP/IdP configurations and generated EntityDescriptor values marshalled and re-parsed. " +
 			"A case is non-trivial when the library produced text or a value that the oracle compared (distinct by input value/string).",
 		Assumptions: []string{"Go encoding/xml, time and math/big are correct", "30-day month / 365-day year as documented in duration.go", "Go's extra RFC3339 leniencies (second 60, comma fraction, hour 24) are not judged"},
-		FloorQuick:  20000,
-		FloorThor:   200000,
+		FloorQuick:  100000,
+		FloorThor:   400000,
 		Run:         runC15,
 		LevelText:   "Boundary classes of durations are enumerated exhaustively and millions of seeded random durations, instants, lexical forms and generated metadata values are pushed through the real Marshal/Unmarshal code; every result is compared with an exact-arithmetic oracle. Held-on-observed, not a proof; right level because the functions are pure and cheap so the workload reaches every digit position, carry and extreme.",
 		LevelNote:   "Trusts Go's encoding/xml, time, math/big and our own 60-line exact duration/instant parsers; Go's extra RFC3339 leniencies, >9 fraction digits and beyond-int64 strings are recorded without verdict.",
